@@ -381,7 +381,8 @@ HARNESSES = [
                    {'vary': ['c3'], 'default_size': 1},
                    {'vary': [], 'fixed': True, 'thresholds': True},
                    {'vary': [], 'fixed': True, 'wide_genes': 260,
-                    'nproc': 2}],
+                    'nproc': 2},
+                   {'vary': [], 'fixed': True, 'leaves': ['c2', 'c0']}],
             thorough_cases=[{}, {'vary': ['c0'], 'thresholds': True}],
             funcs=['markers.find_markers_for_all_taxonomy_pairs',
                    'create_sparse_by_pair_marker_file', '_prep_output_file',
@@ -408,7 +409,9 @@ HARNESSES = [
                    {'vary': [], 'fixed': True, 'route': 'mask',
                     'thresholds': True},
                    {'vary': [], 'fixed': True, 'route': 'mask',
-                    'wide_genes': 260, 'nproc': 2}],
+                    'wide_genes': 260, 'nproc': 2},
+                   {'vary': [], 'fixed': True, 'route': 'mask',
+                    'leaves': ['c2', 'c0']}],
             thorough_cases=[{'route': 'mask'},
                             {'vary': ['c0'], 'route': 'mask',
                              'thresholds': True}],
